@@ -52,9 +52,41 @@ pub fn eval(scene: &Scene) -> Result<(u64, u64, u64), Violation> {
     let (w, h) = (scene.w, scene.h);
     let mut checked = 0u64;
     let mut skipped = 0u64;
+    // a clip path in force: only pixels it covers fully show the gradient, pixels it does not
+    // cover keep the destination (white)
+    let mut clip_cov: Option<Vec<u32>> = None;
+    let bg = scene.dst.pixels(w, h);
+    let mut cx = IDENT;
+    for op in &scene.ops {
+        match op {
+            Op::SetTransform(t) => cx = *t,
+            Op::PushClip(path) => {
+                let s = Scene { w, h, dst: Dst::Zero, ops: vec![Op::SetTransform(cx), Op::Fill(path.clone(), SrcSpec::Solid(0xffffffff), Opts::default())] };
+                clip_cov = Some(render(&s).map_err(|p| Violation::new("model/reference-render-panicked", case.clone(), p))?);
+            }
+            Op::Fill(..) => break,
+            _ => {}
+        }
+    }
     for y in 0..h {
         for x in 0..w {
             let p = got[(y * w + x) as usize];
+            if let Some(cc) = &clip_cov {
+                match cc[(y * w + x) as usize] >> 24 {
+                    255 => {}
+                    0 => {
+                        checked += 1;
+                        if p != bg[(y * w + x) as usize] {
+                            return Err(Violation::new(format!("{}/outside-clip-path-unchanged", src.kind()), case, format!("pixel ({},{}) has zero clip coverage but changed to {:#010x}", x, y, p)));
+                        }
+                        continue;
+                    }
+                    _ => {
+                        skipped += 1;
+                        continue;
+                    }
+                }
+            }
             let (ux, uy) = mat_apply(&inv, x as f64 + 0.5, y as f64 + 0.5);
             let t = match t_at(&src, ux, uy, px_user) {
                 TVal::T(t) => t,
@@ -253,6 +285,53 @@ impl Check for C12 {
                                 }
                             }
                             Err(v) => run.report(s, v),
+                        }
+                    }
+                }
+            }
+        });
+        // the same gradients after calls that leave the current transform alone (pop_layer, clear
+        // under a clip) and under a clip path whose rows begin with uncovered pixels
+        let ctx_geos: Vec<(&'static str, Vec<f32>)> = vec![("linear", vec![2.5, 3.25, 20.0, 4.0]), ("linear", vec![6.0, 21.5, 2.5, 3.25]), ("radial", vec![12.0, 12.0, 16.0]), ("twocircle", vec![10., 11., 1., 13., 12., 9.]), ("sweep", vec![12.0, 12.0, 0.0, 360.0])];
+        let diamond = PathSpec::poly(&[(12.0, 1.0), (23.0, 12.0), (12.0, 23.0), (1.0, 12.0)]);
+        let pres: Vec<(Vec<Op>, Vec<Op>)> = vec![
+            (vec![Op::PushLayer(1.0, BlendMode::SrcOver), Op::PopLayer], vec![]),
+            (vec![Op::PushLayer(0.5, BlendMode::SrcOver), Op::PushLayer(1.0, BlendMode::SrcOver), Op::PopLayer, Op::PopLayer], vec![]),
+            (vec![Op::PushClipRect(0, 0, S, S), Op::Clear(0xffffffff), Op::PopClip], vec![]),
+            (vec![Op::PushClip(diamond.clone())], vec![Op::PopClip]),
+            (vec![Op::PushClip(diamond.clone())], vec![Op::PopClip]),
+            (vec![Op::PushClip(PathSpec::rect(5.0, 3.0, 14.0, 17.0))], vec![Op::PopClip]),
+        ];
+        run.bound("after-state-calls-and-under-clip-paths", format!("{} geometries x {} transforms x 3 spreads x 2 alphas x {} contexts (layer push/pop, nested, clear under a clip rect, diamond clip path, rectangular clip path)", ctx_geos.len(), ctm.len(), pres.len()));
+        run.par(ctx_geos.len() * ctm.len(), |s, l| {
+            let (kind, p) = &ctx_geos[s / ctm.len()];
+            let c = ctm[s % ctm.len()];
+            for spread in [Spr::Pad, Spr::Repeat, Spr::Reflect] {
+                for alpha in [1.0f32, 0.5] {
+                    for (pi, (pre, suf)) in pres.iter().enumerate() {
+                        // Src over white, and SrcOver over a transparent target (the same pixels,
+                        // through the SrcOver blitters)
+                        let over = pi % 2 == 1 || pi == 4;
+                        let src = make(kind, p, stops[1].clone(), spread);
+                        let mut ops = vec![Op::SetTransform(c)];
+                        ops.extend(pre.iter().cloned());
+                        ops.push(Op::Fill(PathSpec::rect(-200., -200., 400., 400.), src, Opts { mode: if over { BlendMode::SrcOver } else { BlendMode::Src }, alpha, aa: true }));
+                        ops.extend(suf.iter().cloned());
+                        let scene = Scene { w: S, h: S, dst: if over { Dst::Zero } else { Dst::White }, ops };
+                        l.states += 1;
+                        l.transitions += scene.ops.len() as u64;
+                        l.traces += 1;
+                        l.evals += 1;
+                        match eval(&scene) {
+                            Ok((hsh, n, sk)) => {
+                                l.outcome(hsh);
+                                l.count("pixels_asserted", n);
+                                l.count("pixels_not_asserted_discontinuity", sk);
+                                if n >= 100 {
+                                    l.nontrivial += 1;
+                                }
+                            }
+                            Err(v) => run.report(20_000 + s, v),
                         }
                     }
                 }
